@@ -207,7 +207,7 @@ func TestC04(t *testing.T) {
 		}
 		defer cr.cleanup()
 		hkey := hx.Hash(histJSON(h))
-		for _, k := range cr.Points {
+		for _, k := range crashfs.PowerLossPoints(cr.Events) {
 			vs := powerLossVariants(cr, k, maxVar, rng)
 			sa, _ := splitSpecs(cr, k)
 			if len(sa) == 0 {
@@ -246,7 +246,7 @@ func TestC04(t *testing.T) {
 			}
 		}
 		rec.Class("histories", 1)
-		rec.Sample(map[string]interface{}{"history": h, "events": len(cr.Events), "crash_points": len(cr.Points)})
+		rec.Sample(map[string]interface{}{"history": h, "events": len(cr.Events), "crash_points": len(crashfs.PowerLossPoints(cr.Events))})
 		rec.Flush()
 	})
 	rec.Flush()
